@@ -131,7 +131,14 @@ func c19History(r *report.R, id string) {
 	func() {
 		defer func() {
 			if rec := recover(); rec != nil {
-				r.Violation(id, "import-panicked", fmt.Sprintf("InitChain with the exported genesis panicked: %.400v", rec), map[string]any{"cfg": h, "height": n.Height})
+				what := fmt.Sprintf("%.400v", rec)
+				cls := "other"
+				if strings.Contains(what, "expiration must be after the current block time") {
+					// x/authz exports every stored grant; its InitGenesis skips those that expired
+					// before the import time and refuses one that expires exactly at it
+					cls = "authz-grant-expiring-exactly-at-the-import-time"
+				}
+				r.Violation(id, "import-panicked|"+cls, "InitChain with the exported genesis panicked: "+what, map[string]any{"cfg": h, "height": n.Height})
 			}
 		}()
 		bApp = newAppFromExport(h.ChainID, exp1.AppState, &req)
